@@ -53,18 +53,21 @@ META = {
         "omit filter. "
         "R7: no raise-condition conjoins `x is not a <container>` with a type test on x's members. "
         "R8: in validators the bare truthiness of the validated value (or of an item of it) never selects the accepting path unless an isinstance test on it dominates. "
+        "R9: every docutils setting converter named in _attr_to_optparse_option that splits a comma-delimited string itself strips the items and drops empty ones, "
+        "or delegates to docutils' validate_comma_separated_list, whose source is re-read as the oracle (strip + drop empties). "
         "The per-field update is located by role (the function that calls validate_field, reached from merge_file_level directly or through one or two "
         "module-level helpers with parameters substituted), so splitting merge_file_level into helpers keeps every rule deciding."
     ),
     "not_decided": (
         "normal-form equality of arbitrary value spellings; value ranges beyond what validators state; the bodies of the custom check_* validators against their "
-        "annotations (only R2/R7/R8 shape facts); the docutils option-string converters (_validate_*, e.g. whether a textual shortcut in _validate_url_schemes still "
-        "recognises every YAML mapping spelling - a fact about a string predicate versus YAML's grammar, value semantics); whether a guard that skips the dict merge "
+        "annotations (only R2/R7/R8 shape facts); the docutils option-string converters beyond their comma splitting (R9): e.g. whether a textual shortcut in _validate_url_schemes still "
+        "recognises every YAML mapping spelling - a fact about a string predicate versus YAML's grammar, value semantics; int/bool/YAML conversion of setting strings; whether a guard that skips the dict merge "
         "is harmless for the values it admits (R3 is value-blind: any extra condition on the merge is reported)"
     ),
     "trusted_base": [
         "CPython ast",
         "mystsa CFG (flow.py)",
+        "docutils/frontend.py as installed (validate_comma_separated_list is the splitting oracle of R9)",
         "dataclasses semantics: __post_init__ runs after __init__, dc.replace calls the constructor and passes field values by reference",
         "the Sphinx environment (and env.myst_config with it) is pickled between builds",
     ],
@@ -1677,6 +1680,151 @@ def r8_truthiness_for_none(corpus: Corpus, rep: Report, tier: str):
 
 
 # ---------------------------------------------------------------------------
+# R9 comma-delimited docutils setting strings are split like docutils does
+
+
+def _comma_split_sites(f: FunctionInfo) -> list[ast.Call]:
+    return [n for n in f.local_nodes() if isinstance(n, ast.Call) and isinstance(n.func, ast.Attribute) and n.func.attr == "split" and len(n.args) >= 1 and isinstance(n.args[0], ast.Constant) and n.args[0].value == ","]
+
+
+def _split_site_verdict(f: FunctionInfo, site: ast.Call) -> tuple[bool, bool]:
+    """(items stripped?, empty items dropped?) for one ``X.split(",")`` - Unsupported when the items are consumed in an unknown way."""
+    # names that hold the split result
+    holders: set[str] = set()
+    for n in f.local_nodes():
+        if isinstance(n, ast.Assign) and n.value is site:
+            for t in n.targets:
+                if isinstance(t, ast.Name):
+                    holders.add(t.id)
+
+    def is_source(e: ast.AST) -> bool:
+        return e is site or (isinstance(e, ast.Name) and e.id in holders)
+
+    def strips(e: ast.AST, var: set[str]) -> bool:
+        for c in ast.walk(e):
+            if isinstance(c, ast.Call) and isinstance(c.func, ast.Attribute) and c.func.attr in ("strip",) and _free_names(c.func.value) & var:
+                return True
+        return False
+
+    stripped = filtered = False
+    consumed = False
+    for n in f.local_nodes():
+        if isinstance(n, (ast.ListComp, ast.SetComp, ast.GeneratorExp, ast.DictComp)):
+            for g in n.generators:
+                if not is_source(g.iter):
+                    continue
+                consumed = True
+                var = {x.id for x in ast.walk(g.target) if isinstance(x, ast.Name)}
+                parts = [n.key, n.value] if isinstance(n, ast.DictComp) else [n.elt]
+                if any(strips(p_, var) for p_ in parts) or any(strips(c, var) for c in g.ifs):
+                    stripped = True
+                if any(_free_names(c) & var for c in g.ifs):
+                    filtered = True
+                # filter(None, <genexp>) / filter(bool, ...)
+                pa = parent(n)
+                if isinstance(pa, ast.Call) and dotted(pa.func) == "filter" and pa.args and (is_const_none(pa.args[0]) or dotted(pa.args[0]) == "bool"):
+                    filtered = True
+        elif isinstance(n, ast.For) and is_source(n.iter):
+            consumed = True
+            var = {x.id for x in ast.walk(n.target) if isinstance(x, ast.Name)}
+            derived = set(var)
+            for st in ast.walk(n):
+                if isinstance(st, ast.Assign) and _free_names(st.value) & derived:
+                    if strips(st.value, derived):
+                        stripped = True
+                    for t in st.targets:
+                        if isinstance(t, ast.Name):
+                            derived.add(t.id)
+            if any(strips(st, derived) for st in n.body):
+                stripped = True
+            if any(isinstance(st, ast.If) and _free_names(st.test) & derived for st in ast.walk(n)):
+                filtered = True
+        elif isinstance(n, ast.Call) and dotted(n.func) == "map" and len(n.args) == 2 and is_source(n.args[1]):
+            consumed = True
+            if dotted(n.args[0]) == "str.strip":
+                stripped = True
+            pa = parent(n)
+            if isinstance(pa, ast.Call) and dotted(pa.func) == "filter" and pa.args and (is_const_none(pa.args[0]) or dotted(pa.args[0]) == "bool"):
+                filtered = True
+        elif isinstance(n, ast.Call) and dotted(n.func) in ("set", "list", "tuple", "frozenset", "sorted", "dict.fromkeys") and n.args and is_source(n.args[0]):
+            consumed = True  # taken as they are
+    if not consumed:
+        raise Unsupported(f"{f.qualname}: the items of `{short(site, 40)}` are consumed in a way that is not understood")
+    return stripped, filtered
+
+
+def is_const_none(e: ast.AST) -> bool:
+    return isinstance(e, ast.Constant) and e.value is None
+
+
+@rule("C13.R9")
+def r9_comma_lists_split_like_docutils(corpus: Corpus, rep: Report, tier: str):
+    rep.rule(
+        "C13.R9",
+        "every docutils setting converter that splits a comma-delimited string strips the items and drops empty ones, as docutils' validate_comma_separated_list "
+        "does (else 'a, b' / 'a,' / '' give a configuration no list value gives)",
+    )
+    du = corpus.mod("parsers.docutils_")
+    anchor = du.func("_attr_to_optparse_option")
+    # the oracle: docutils' own splitter strips and drops empties
+    try:
+        fe = corpus.sibling("docutils/frontend.py")
+        rep.saw_sibling("docutils/frontend.py")
+        oracle = fe.func("validate_comma_separated_list")
+        osites = _comma_split_sites(oracle)
+        if not osites or not all(_split_site_verdict(oracle, x) == (True, True) for x in osites):
+            rep.error("C13.R9", "docutils.frontend.validate_comma_separated_list no longer strips items and drops empty ones (oracle changed)")
+    except AnchorMissing as e:
+        rep.error("C13.R9", f"sibling oracle missing: {e}")
+    # converters named as optparse validators
+    conv: dict[str, FunctionInfo] = {}
+    delegating_direct = 0
+    for n in anchor.local_nodes():
+        if isinstance(n, ast.Dict):
+            for k_, v in zip(n.keys, n.values):
+                if not (isinstance(k_, ast.Constant) and k_.value == "validator"):
+                    continue
+                tgt = v.func if isinstance(v, ast.Call) else v
+                d = dotted(tgt) or ""
+                if du.resolve(d) == "docutils.frontend.validate_comma_separated_list":
+                    delegating_direct += 1
+                    rep.ok("C13.R9", f"{anchor.fq}|{short(v, 50)} used directly", du.site(v), "docutils' own splitter")
+                    continue
+                f = du.functions.get(d)
+                if f is None:
+                    continue
+                conv[f.fq] = f
+                if isinstance(v, ast.Call):  # factory: its closures do the work
+                    for q, g in du.functions.items():
+                        if g.parent_func is not None and g.parent_func.fq == f.fq and not g.is_lambda:
+                            conv[g.fq] = g
+    if not conv:
+        raise Unsupported("_attr_to_optparse_option names no local converter functions")
+    for fq, f in sorted(conv.items()):
+        rep.saw_function(fq)
+        sites = _comma_split_sites(f)
+        delegates = [c for c in f.local_nodes() if isinstance(c, ast.Call) and du.resolve(dotted(c.func) or "") == "docutils.frontend.validate_comma_separated_list"]
+        for c in delegates:
+            rep.ok("C13.R9", f"{fq}|delegates the splitting to docutils", du.site(c), "validate_comma_separated_list strips items and drops empty ones (sibling verified)")
+        for i, site in enumerate(sorted(sites, key=lambda x: (x.lineno, x.col_offset))):
+            k = f"{fq}|items of the comma split are stripped and empty items dropped" + (f" #{i + 1}" if len(sites) > 1 else "")
+            stripped, filtered = _split_site_verdict(f, site)
+            if stripped and filtered:
+                rep.ok("C13.R9", k, du.site(site))
+            else:
+                missing = " and ".join(x for x, okx in (("are not stripped", stripped), ("empty items are kept", filtered)) if not okx)
+                rep.violation(
+                    "C13.R9",
+                    k,
+                    du.site(site),
+                    f"`{short(site, 40)}` in {f.qualname}: the items {missing}. Every other comma-delimited MyST setting goes through docutils' validate_comma_separated_list "
+                    "(strip, drop empties), so 'a, b', 'a,' or '' in this setting yield keys/items (' b', '') that no list value of the option has - the docutils spelling does not "
+                    "produce the configuration the same value gives elsewhere",
+                )
+    rep.expect_min("C13.R9", 3, "two direct uses, two delegating converters and one own split on the pinned tree")
+
+
+# ---------------------------------------------------------------------------
 # R4 who may write a config object
 
 MUTATORS = {
@@ -2327,7 +2475,7 @@ def r6_entry_points_funnel(corpus: Corpus, rep: Report, tier: str):
     rep.expect_min("C13.R6", 9, "post_init, validate_fields, validate_field, copy, 2x constructor, 2x handler, 2x omit filter")
 
 
-RULES = [r1_validator_types, r2_commit_after_validate, r3_no_raw_overwrite, r4_config_writers, r5_invalid_value_path, r6_entry_points_funnel, r7_short_circuit_consistency, r8_truthiness_for_none]
+RULES = [r1_validator_types, r2_commit_after_validate, r3_no_raw_overwrite, r4_config_writers, r5_invalid_value_path, r6_entry_points_funnel, r7_short_circuit_consistency, r8_truthiness_for_none, r9_comma_lists_split_like_docutils]
 
 
 # ---------------------------------------------------------------------------
@@ -2623,4 +2771,31 @@ def mutants(corpus: Corpus):
         out.append(Mutant("c13-validate-fields-skips-falsy", "C13.R6", dv.rel, splice(dv.src, st, f"if {cur}:\n{ind}    {_seg(dv, st)}"), expect="validate_fields"))
     else:
         out.append(("c13-validate-fields-skips-values-equal-to-default", "validate_fields loop body is not a single validate_field call on this tree"))
+    # ---- round 6: comma-delimited setting strings split without docutils' normalisation (R9)
+    du = corpus.mod("parsers.docutils_")
+    f = du.functions.get("_validate_comma_separated_set")
+    if f is not None:
+        c = find_node(f, lambda n: isinstance(n, ast.Call) and du.resolve(dotted(n.func) or "") == "docutils.frontend.validate_comma_separated_list")
+        if c is not None and len(f.params) > 1:
+            v = f.params[1]
+            out.append(Mutant("c13-set-converter-own-split-keeps-empty-items", "C13.R9", du.rel, splice(du.src, c, f'[i.strip() for i in {v}.split(",")]'), expect="_validate_comma_separated_set"))
+            out.append(Mutant("c13-set-converter-own-split-unstripped", "C13.R9", du.rel, splice(du.src, c, f'[i for i in {v}.split(",") if i]'), expect="_validate_comma_separated_set"))
+    f = du.functions.get("_create_validate_tuple._validate")
+    if f is not None:
+        c = find_node(f, lambda n: isinstance(n, ast.Call) and du.resolve(dotted(n.func) or "") == "docutils.frontend.validate_comma_separated_list")
+        if c is not None and len(f.params) > 1:
+            out.append(Mutant("c13-tuple-converter-plain-split", "C13.R9", du.rel, splice(du.src, c, f'{f.params[1]}.split(",")'), expect="_create_validate_tuple._validate"))
+    f = du.functions.get("_validate_url_schemes")
+    if f is not None:
+        for site in _comma_split_sites(f):
+            comp = parent(site)
+            while comp is not None and not isinstance(comp, (ast.DictComp, ast.ListComp, ast.SetComp, ast.GeneratorExp, ast.stmt)):
+                comp = parent(comp)
+            try:
+                good = _split_site_verdict(f, site) == (True, True)
+            except Unsupported:
+                good = False
+            if good and isinstance(comp, ast.DictComp):
+                var = unparse(comp.generators[0].target)
+                out.append(Mutant("c13-url-schemes-list-spelling-not-normalised", "C13.R9", du.rel, splice(du.src, comp, "{" + f"{var}: None for {var} in {_seg(du, site)}" + "}"), expect="_validate_url_schemes"))
     return out
